@@ -138,9 +138,14 @@ Construct(S, nm, a, d) ==
                     ELSE [S |-> SetCid(r.S, nm), err |-> "", partial |-> FALSE]
 
 (* -------- _replace_child -------- *)
+HasField(S, pn, f) == f \in {ChildFields[S.obj[pn].c][j] : j \in 1..Len(ChildFields[S.obj[pn].c])}
+(* the stored link resolved to a node of a class without that field (an id re-used after a partially undone attach):
+   reading the sequence raises AttributeError; for a single field the assignment just adds an attribute *)
+ReplaceChildRaises(S, pn, f, i) == ~HasField(S, pn, f) /\ i # 0 - 1
 ReplaceChild(S, pn, old, f, i, new) ==
-    LET seq == S.obj[pn].k[f]
-        S1 == IF i # 0 - 1
+    LET seq == IF HasField(S, pn, f) THEN S.obj[pn].k[f] ELSE <<>>
+        S1 == IF ~HasField(S, pn, f) THEN S
+              ELSE IF i # 0 - 1
               THEN (IF new # None
                     THEN [S EXCEPT !.obj[pn].k[f] = SubSeq(seq, 1, Min2(i, Len(seq))) \o <<new>> \o SubSeq(seq, i + 2, Len(seq))]
                     ELSE LET later == SubSeq(seq, i + 2, Len(seq))
@@ -172,6 +177,8 @@ Replace(S, n, chg, nm) ==
                 S3 == IF was THEN Relink[Len(ks)] ELSE c.S
                 S4 == IF cp # None THEN SetParent(S3, n, cp, cpf, cpi) ELSE S3
             IN [S |-> S4, err |-> c.err, partial |-> c.partial]
+       ELSE IF cp # None /\ ReplaceChildRaises(c.S, cp, cpf, cpi)
+            THEN [S |-> c.S, err |-> "stray:AttributeError", partial |-> TRUE]
        ELSE LET S3 == IF cp # None THEN ReplaceChild(c.S, cp, n, cpf, cpi, nm) ELSE c.S
             IN [S |-> [S3 EXCEPT !.obj[nm].oid = r.oid, !.obj[nm].coll = r.coll], err |-> "", partial |-> FALSE]
 
@@ -202,7 +209,12 @@ ReplaceWith(S, n, new) ==
     THEN LET cp == Parent(S, n)
              cpf == S.obj[n].pf
              cpi == S.obj[n].pi
-         IN IF ~FieldAdmits(S, cp, cpf, new) THEN [S |-> S, err |-> "ASTNodeReplaceWithError", partial |-> FALSE]
+         IN (* a stored link can resolve to a node of a class that has no such field (the id was re-used after a
+               partially undone attach): the code raises RuntimeError("... This is a bug, please report it") first *)
+            IF ~HasField(S, cp, cpf)
+            THEN [S |-> S, err |-> "stray:RuntimeError", partial |-> FALSE]
+            ELSE
+            IF ~FieldAdmits(S, cp, cpf, new) THEN [S |-> S, err |-> "ASTNodeReplaceWithError", partial |-> FALSE]
             ELSE LET S1 == Detach(ClearParent(S, n), n, FALSE)
                      h == IF new = None THEN [S |-> S1, err |-> "", partial |-> FALSE]
                           ELSE HandOver(S1, n, new, TRUE, [on |-> TRUE, p |-> cp, f |-> cpf, i |-> cpi])
